@@ -490,9 +490,9 @@ def key(x):
 
 
 def worker(gid, defs, edges, n_walks, walk_len, seed_, extra):
-    """edges: list of MTR records of this schema.  extra["replay"] = (k, n):
-    this job replays every n-th graph node starting at k (all jobs hold the
-    whole graph; only job 0 does the history walks)."""
+    """edges: MTR records of this schema (raw JSON text or parsed).  Every
+    edge given is replayed; the history walks (n_walks > 0) move through the
+    graph these edges form."""
     res = {"fails": [], "n_edges": 0, "n_walk_steps": 0, "n_walks": 0, "samples": [], "nontrivial": 0,
            "diverged_allowed": 0}
     env = S.Env(defs, names=["M%d_T%d" % (gid, i + 1) for i in range(len(defs))])
@@ -506,6 +506,8 @@ def worker(gid, defs, edges, n_walks, walk_len, seed_, extra):
     # graph: (a, b) -> (m, op) -> set of (out, v)
     graph = {}
     for e in edges:
+        if isinstance(e, str):
+            e = json.loads(e)
         node = graph.setdefault((key(e["a"]), key(e["b"])), {})
         node.setdefault((e["m"], key(e["op"])), []).append((e["out"], key(e["v"])))
     schema_text = env.render()
